@@ -301,6 +301,8 @@ class Interp:
         self.path.pc.append(cond)
 
     def oblige(self, kind, label, goal, lineno=None):
+        if getattr(self, 'guard_ctx', None) and is_z3(goal):
+            goal = z3.Implies(z3.And(*self.guard_ctx), goal)
         goal = z3.simplify(goal) if is_z3(goal) else z3.BoolVal(bool(goal))
         if z3.is_true(goal):
             return
@@ -313,6 +315,8 @@ class Interp:
         s = z3.Solver()
         s.set('timeout', 300)
         for c in self.path.pc:
+            s.add(c)
+        for c in getattr(self, 'guard_ctx', ()):
             s.add(c)
         s.add(cond)
         return s.check() != z3.unsat
@@ -343,7 +347,11 @@ class Interp:
         self.path.trace.append(choice)
         self.path.dec_idx.add(len(self.path.pc))
         n_before = len(self.path.pc)
-        self.assume(cond if c else z3.Not(cond))
+        fact = cond if c else z3.Not(cond)
+        if getattr(self, 'guard_ctx', None):
+            # decision taken while evaluating a later operand of `a and b` / `a or b`: it only speaks about the executions in which that operand is evaluated
+            fact = z3.Implies(z3.And(*self.guard_ctx), fact)
+        self.assume(fact)
         if len(self.path.pc) == n_before:
             self.path.dec_idx.discard(n_before)
         return c
@@ -1161,7 +1169,21 @@ class Frame:
     def e_BoolOp(self, e):
         # short circuit semantics; symbolic operands are combined without forking when all are bool-like
         vals = []
+        if not hasattr(self.I, 'guard_ctx'):
+            self.I.guard_ctx = []
+        depth0 = len(self.I.guard_ctx)
+        try:
+            return self._boolop(e, vals)
+        finally:
+            del self.I.guard_ctx[depth0:]
+
+    def _boolop(self, e, vals):
         for x in e.values:
+            # short circuit: a later operand is evaluated only if the earlier ones did not decide the result; decisions / obligations arising while
+            # it is evaluated are guarded by that condition (Interp.guard_ctx)
+            if vals:
+                z = vals[-1] if is_z3(vals[-1]) else z3.BoolVal(bool(vals[-1]))
+                self.I.guard_ctx.append(z if isinstance(e.op, ast.And) else z3.Not(z))
             v = self.eval(x)
             t = self.truth(v)
             if isinstance(t, bool):
